@@ -3645,27 +3645,27 @@ Proof.
   exact (base_caller_trunner w11_prev w11_hs_fb w11_frun [w11_fexit] H1 H2).
 Qed.
 
-(* ---------- C11_ordinal_substitution: the generic standalone path of a real configuration, cut at its "%d" ---------- *)
-Definition w11_pre : bytes := B "/m/pkg/shared/x/TestA_b c_".
+(* ---------- C11_ordinal_substitution: the generic standalone path of a real configuration whose test name holds a '%',
+   cut at the "%d" that constructFilename appended ---------- *)
+Definition w11_pct_test : bytes := B "TestA/100%d b".
+Definition w11_pre : bytes := B "/m/pkg/shared/x/TestA_100%d b_".
 Definition w11_post : bytes := B ".snap".
 Definition w11_ord : bytes := dec 12.
-Definition w11_generic : bytes := snapshot_path w11_cfg_rel w11_caller1 w11_test true.
+Definition w11_generic : bytes := snapshot_path w11_cfg_rel w11_caller1 w11_pct_test true.
 
-Lemma w11_pre_nopct : ~ In 37%N w11_pre.
-Proof.
-  intros H. assert (E : existsb (N.eqb 37%N) w11_pre = true).
-  { apply existsb_exists. exists 37%N. split; [exact H|reflexivity]. }
-  vm_compute in E. discriminate E.
-Qed.
 Lemma C11_ordinal_substitution_witness :
-  ~ In 37%N w11_pre /\ w11_generic = w11_pre ++ 37%N :: 100%N :: w11_post.
-Proof. split; [exact w11_pre_nopct|]. vm_compute. reflexivity. Qed.
+  In 37%N w11_pre /\ w11_generic = esc_pct w11_pre ++ 37%N :: 100%N :: esc_pct w11_post.
+Proof.
+  split; [|vm_compute; reflexivity].
+  assert (E : existsb (N.eqb 37%N) w11_pre = true) by (vm_compute; reflexivity).
+  apply existsb_exists in E. destruct E as [x [Hin Hx]]. apply N.eqb_eq in Hx. now subst x.
+Qed.
 Lemma C11_ordinal_substitution_applied :
   subst_d w11_generic w11_ord = w11_pre ++ w11_ord ++ w11_post /\
-  subst_d w11_generic w11_ord = B "/m/pkg/shared/x/TestA_b c_12.snap".
+  subst_d w11_generic w11_ord = B "/m/pkg/shared/x/TestA_100%d b_12.snap".
 Proof.
-  destruct C11_ordinal_substitution_witness as [H1 H2]. split.
-  - rewrite H2. exact (subst_d_first w11_pre w11_post w11_ord H1).
+  destruct C11_ordinal_substitution_witness as [_ H2]. split.
+  - rewrite H2. exact (subst_d_format w11_pre w11_post w11_ord).
   - vm_compute. reflexivity.
 Qed.
 
